@@ -400,28 +400,37 @@ def gen_peer_sessions(r, nseq, length):
     return seqs
 
 
-def peer_family(ctx, nseq, length, given=None):
+def peer_family(ctx, nseq, length, given=None, given_firsts=None, spec_only=False):
     """the COMPLETE wire log of a connection while the peer sends stale / foreign / duplicate / partial frames or nothing and
     the transport takes the frames in pieces, stalls or stops: vs Model session_stream and Spec ref_session_stream (C03_session_stream)"""
     seqs = given or gen_peer_sessions(ctx.rng, nseq, length)
     seqs = [[(norm(c), list(a), int(k)) for c, a, k in seq] for seq in seqs]
+    # the session's first transaction id (hook ClientSession::set_next_tx_id): near the 16-bit wrap for 40% of the TCP sessions, so
+    # that a 6-call session crosses 0xFFFF -> 0x0000 -> 0x0001 (C03_session_wire_from: the i-th request carries (first + i) mod 65536)
+    firsts = (given_firsts if given_firsts else
+              [(65536 - ctx.rng.randrange(1, 6)) if (seq[0][0][0] == 'T' and ctx.rng.random() < 0.4) else 0 for seq in seqs])
 
     def tok(c, acts):
         f, k, u, s0, n, v, lit, style = c
         vs = '-' if v is None else (f's{v[1]}' if v[0] == 's' else 'l' + ';'.join(str(x) for x in v[1]))
         return f'{k}{"r" if lit else ""},{u},{s0},{n},{vs},{"fcx"[style]}@{"+".join(acts)}'
-    lines = [seq[0][0][0] + ' ' + ' '.join(tok(c, a) for c, a, _ in seq) for seq in seqs]
+    lines = [seq[0][0][0] + (f' tx={first} ' if first else ' ') + ' '.join(tok(c, a) for c, a, _ in seq) for seq, first in zip(seqs, firsts)]
     out = ctx.harness('cseq', lines)
 
     def coq_call(c, cut):
         f, k, u, s0, n, v, lit, style = c
         vs = 'Seed 0 0' if v is None else (f'Seed {v[1]} {n}' if v[0] == 's' else 'Lst ' + vlib.coq_N_list(v[1]))
         return f'({style}, {k}, {u}, {s0}, {n}, {vs}, {cut}, false)'
-    both = ctx.coq_eval(REQS, 'run_stream_case', [f'({vlib.coq_bool(seq[0][0][0] == "T")}, [{"; ".join(coq_call(c, k) for c, _, k in seq)}])' for seq in seqs],
-                        case_type='stream_case', per_shard=25)
+    terms = [f'({vlib.coq_bool(seq[0][0][0] == "T")}, {first}, [{"; ".join(coq_call(c, k) for c, _, k in seq)}])' for seq, first in zip(seqs, firsts)]
+    if spec_only:
+        # the model does not compile (lost translator tie): judge the implementation against the oracle alone
+        ctx.build_models(['Spec.ClientSpecEval'])
+        both = ctx.coq_eval(['Base.Show', 'Base.CaseGen', 'Spec.ClientSpecEval'], 'run_stream_spec', terms, case_type='stream_case_spec', per_shard=25)
+    else:
+        both = ctx.coq_eval(REQS, 'run_stream_case', terms, case_type='stream_case', per_shard=25)
     bad = 0
-    stats = {'peer-sessions': len(seqs), 'peer-calls': sum(len(x) for x in seqs)}
-    for seq, ln, o, b in zip(seqs, lines, out, both):
+    stats = {'peer-sessions': len(seqs), 'peer-calls': sum(len(x) for x in seqs), 'peer-sessions-crossing-the-tx-id-wrap': sum(1 for x in firsts if x)}
+    for seq, ln, o, b, first in zip(seqs, lines, out, both, firsts):
         m = __import__('re').fullmatch(r'wire=(\S+) res=(.*) end=(\S+)', o)
         model, spec = b.split('|')
         spec = model if spec == '=' else spec
@@ -449,7 +458,7 @@ def peer_family(ctx, nseq, length, given=None):
                 ctx.violation(key, f'connection over {"TCP" if seq[0][0][0] == "T" else "RTU"} with a scripted peer: the client wrote {len(wire) // 2} bytes, the Spec (one serialisation per accepted '
                               f'call, in order, nothing else: ref_session_stream) says {len(spec) // 2}; first difference at byte {ix}: wire `...{wire[max(0, 2 * ix - 8):2 * ix + 32]}` '
                               f'Spec `...{spec[max(0, 2 * ix - 8):2 * ix + 32]}`; results `{res[:120]}` end={end} [cseq: {ln[:400]}]',
-                              {'peer_sessions': [[[jcase(c), a, k] for c, a, k in seq]], 'impl': o[:3000], 'spec': spec[:3000]}, no_failing_input=(wire == spec and not bad_tokens))
+                              {'peer_sessions': [[[jcase(c), a, k] for c, a, k in seq]], 'first_tx_ids': [first], 'impl': o[:3000], 'spec': spec[:3000]}, no_failing_input=(wire == spec and not bad_tokens))
         if cutlast and ok_wire and len(spec) and end not in ('Io(TimedOut)', '-'):
             bad += 1
     ctx.oblige('correspondence:wire-log-with-scripted-peer-and-transport-vs-model-and-spec', bad == 0, f'{bad} of {len(seqs)} sessions')
@@ -550,11 +559,18 @@ def run(ctx):
     ctx.prove()
     if ctx.tier == 'thorough':
         ctx.coqchk()
-    if not ctx.build_harness() or not models_ok:
+    if not ctx.build_harness():
         return
     quick = ctx.quick()
+    if not models_ok:
+        # no model to evaluate: the scripted-peer sessions (whole wire log, transaction ids across the wrap) against the Spec alone
+        if not ctx.replay or 'peer_sessions' in ctx.replay:
+            st = peer_family(ctx, 150 if quick else 3000, 6, given=(ctx.replay or {}).get('peer_sessions'), given_firsts=(ctx.replay or {}).get('first_tx_ids'), spec_only=True)
+            ctx.coverage.update({'evaluations': st['peer-calls'], 'distinct_nontrivial': st['peer-calls'], 'samples': [],
+                                 'rule': 'the model does not compile: scripted-peer sessions judged against the Spec alone', 'input_classes': st})
+        return
     if ctx.replay and 'peer_sessions' in ctx.replay:
-        st = peer_family(ctx, 0, 0, given=ctx.replay['peer_sessions'])
+        st = peer_family(ctx, 0, 0, given=ctx.replay['peer_sessions'], given_firsts=ctx.replay.get('first_tx_ids'))
         ctx.coverage.update({'evaluations': st['peer-calls'], 'distinct_nontrivial': st['peer-calls'], 'rule': 'replay of scripted-peer sessions', 'samples': []})
         return
     if ctx.replay and 'session' in ctx.replay:
@@ -667,7 +683,7 @@ def run(ctx):
         pst = peer_family(ctx, 150 if quick else 3000, 6)
         classes.update(pst)
         n_sess += pst['peer-calls']
-        pmiss = [x for x in ('peer-act:stale', 'peer-act:duplicate', 'peer-act:partial', 'peer-act:nothing', 'peer-act:write-script', 'peer-act:write-cut-by-timeout',
+        pmiss = [x for x in ('peer-sessions-crossing-the-tx-id-wrap', 'peer-act:stale', 'peer-act:duplicate', 'peer-act:partial', 'peer-act:nothing', 'peer-act:write-script', 'peer-act:write-cut-by-timeout',
                              'peer-act:release', 'peer-act:exception') if classes.get(x, 0) < 3]
         ctx.oblige('scripted-peer-generator-reaches-expected-classes', not pmiss, f'missing={pmiss}')
     classes['max_frame_len_tcp'] = max_len['T']
